@@ -6,6 +6,7 @@ sys.path.insert(0, os.path.join(ROOT, "checklib"))
 import predicates
 sl, n, seed = sys.argv[1], sys.argv[2], sys.argv[3]
 preds = sys.argv[4:]
+subprocess.check_call(["cargo", "build", "--release", "--offline", "-q"], cwd=os.path.join(ROOT, "harness"))
 out = os.path.join(ROOT, "work", "devpred")
 extra = ["--thorough"] if os.environ.get("THOROUGH") else []
 subprocess.check_call([os.path.join(ROOT, ".build/cargo/release/cwmt-harness"), "run", "--slice", sl, "--seed", seed, "--cases", n, "--out", out] + extra)
